@@ -41,6 +41,10 @@ func main() {
 	if len(os.Args) > 2 {
 		fmt.Sscan(os.Args[2], &seed)
 	}
+	mode := "all"
+	if len(os.Args) > 3 {
+		mode = os.Args[3]
+	}
 	var selections, updates int64
 	var mu sync.Mutex
 	var problems []string
@@ -68,6 +72,9 @@ func main() {
 			mkSel{fmt.Sprintf("random/w=%v", w), func() selector.Selector { return random.New(w) }},
 			mkSel{fmt.Sprintf("modhash/w=%v", w), func() selector.Selector { return modhash.New(w) }},
 			mkSel{fmt.Sprintf("consistenthash/w=%v", w), func() selector.Selector { return consistenthash.New(w, consistenthash.KetamaHash) }})
+	}
+	if mode == "hash" {
+		sels = nil
 	}
 	for si, ms := range sels {
 		s := ms.mk()
@@ -120,6 +127,101 @@ func main() {
 		}
 		wg.Wait()
 	}
-	b, _ := json.Marshal(map[string]interface{}{"selections": selections, "updates": updates, "problems": problems})
+	hs, hu := hashConc(iters, seed, problem)
+	selections += hs
+	updates += hu
+	b, _ := json.Marshal(map[string]interface{}{"selections": selections, "updates": updates, "problems": problems, "hash_lookups_concurrent_with_updates": hs})
 	fmt.Printf("C13RACE %s\n", b)
+}
+
+// hashConc - hash routing CONCURRENT with membership changes (C14): for mod-hash and consistent hash (weighted and
+// not), six readers look codes up while one updater alternates between the endpoint sets B and B+X - by Add / Remove
+// and by Refresh.  Every answer must be the endpoint the code has in B or in B+X (for mod-hash: the slot of the list
+// before or after; X is appended and removed again, so the list is always B or B++[X]): never a third endpoint,
+// never an error, never a panic.  The expectations come from selectors of this program's own that nobody updates.
+func hashConc(iters int, seed int64, problem func(string)) (lookups, updates int64) {
+	type mk struct {
+		name string
+		f    func() selector.Selector
+	}
+	var kinds []mk
+	for _, w := range []bool{false, true} {
+		w := w
+		kinds = append(kinds,
+			mk{fmt.Sprintf("modhash/w=%v", w), func() selector.Selector { return modhash.New(w) }},
+			mk{fmt.Sprintf("consistenthash/w=%v", w), func() selector.Selector { return consistenthash.New(w, consistenthash.KetamaHash) }})
+	}
+	hep := func(i int) endpoint.Endpoint {
+		e := endpoint.Endpoint{Host: fmt.Sprintf("10.9.%d.%d", 1+i/200, i%200), Port: 10000, Timeout: 3000, Istcp: 1, Weight: int32(4 + 4*(i%5)), WeightType: 1, Proto: "tcp"}
+		e.Key = e.String()
+		return e
+	}
+	for ki, k := range kinds {
+		for _, how := range []string{"add-remove", "refresh"} {
+			rng := rand.New(rand.NewSource(seed + int64(ki)))
+			n := 20 + rng.Intn(41)
+			var base []endpoint.Endpoint
+			for i := 0; i < n; i++ {
+				base = append(base, hep(i))
+			}
+			x := hep(500 + rng.Intn(100))
+			with := append(append([]endpoint.Endpoint(nil), base...), x)
+			before, after := k.f(), k.f()
+			before.Refresh(append([]endpoint.Endpoint(nil), base...))
+			after.Refresh(append([]endpoint.Endpoint(nil), with...))
+			codes := make([]uint32, 400)
+			okHosts := make([][2]string, len(codes))
+			for i := range codes {
+				codes[i] = rng.Uint32()
+				if i < 2*n+4 {
+					codes[i] = uint32(i)
+				}
+				a, _ := before.Select(msg(codes[i]))
+				b, _ := after.Select(msg(codes[i]))
+				okHosts[i] = [2]string{a.Host, b.Host}
+			}
+			s := k.f()
+			s.Refresh(append([]endpoint.Endpoint(nil), base...))
+			var stop int32
+			var wg sync.WaitGroup
+			for g := 0; g < 6; g++ {
+				wg.Add(1)
+				go func(g int) {
+					defer wg.Done()
+					defer func() {
+						if r := recover(); r != nil {
+							problem(fmt.Sprintf("panic: %s lookups concurrent with %s: %v", k.name, how, r))
+						}
+					}()
+					for j := g; atomic.LoadInt32(&stop) == 0; j++ {
+						i := j % len(codes)
+						e, err := s.Select(msg(codes[i]))
+						atomic.AddInt64(&lookups, 1)
+						if err != nil {
+							problem(fmt.Sprintf("select-error-on-nonempty-set: %s concurrent with %s: %v", k.name, how, err))
+							return
+						}
+						if e.Host != okHosts[i][0] && e.Host != okHosts[i][1] {
+							problem(fmt.Sprintf("third-endpoint: %s: code %d answered with %s while the set alternates (%s of %s) between %d endpoints, where the code belongs to %s, and those plus %s, where it belongs to %s", k.name, codes[i], e.Host, how, x.Host, n, okHosts[i][0], x.Host, okHosts[i][1]))
+							return
+						}
+					}
+				}(g)
+			}
+			cycles := iters/75 + 5
+			for c := 0; c < cycles; c++ {
+				atomic.AddInt64(&updates, 2)
+				if how == "add-remove" {
+					_ = s.Add(x)
+					_ = s.Remove(x)
+				} else {
+					s.Refresh(append([]endpoint.Endpoint(nil), with...))
+					s.Refresh(append([]endpoint.Endpoint(nil), base...))
+				}
+			}
+			atomic.StoreInt32(&stop, 1)
+			wg.Wait()
+		}
+	}
+	return lookups, updates
 }
